@@ -57,7 +57,14 @@ namespace TAO_PEGTL_NAMESPACE::internal
          auto m = in.template auto_rewind< rewind_mode::required >();
 
          if( Control< Head >::template match< A, rewind_mode::optional, Action, Control >( in, st... ) ) {
-            memory_input< ParseInput::tracking_mode_v, typename ParseInput::eol_t, typename ParseInput::source_t > i2( m.inputerator(), in.current(), in.source() );
+            using memory_t = memory_input< ParseInput::tracking_mode_v, typename ParseInput::eol_t, typename ParseInput::source_t >;
+            if constexpr( ParseInput::tracking_mode_v == tracking_mode::lazy ) {
+               // A lazy input only remembers where it began, keep that so that positions inside the rematched range stay absolute.
+               const auto p = in.position( in.begin() );
+               memory_t i2( inputerator( in.begin(), p.byte, p.line, p.column ), in.current(), in.source() );
+               return m( ( ( i2.restart( m ), Control< Rule >::template match< A, rewind_mode::optional, Action, Control >( i2, st... ) ) && ... && ( i2.restart( m ), Control< Rules >::template match< A, rewind_mode::optional, Action, Control >( i2, st... ) ) ) );
+            }
+            memory_t i2( m.inputerator(), in.current(), in.source() );
             return m( ( Control< Rule >::template match< A, rewind_mode::optional, Action, Control >( i2, st... ) && ... && ( i2.restart( m ), Control< Rules >::template match< A, rewind_mode::optional, Action, Control >( i2, st... ) ) ) );
          }
          return false;
